@@ -64,6 +64,7 @@ fn sw_group<P: sw::SWCurveConfig>(t: &mut Tally, name: &str) where P::BaseField:
             t.check(sw_to(&-*pr) == p.map(|(x, y)| (x, -y)), || format!("{name}: neg rep {ri} of {p:?}"));
             t.check(*pr == sw_reps::<P>(*p)[0] && pr.is_zero() == p.is_none(), || format!("{name}: eq/is_zero across reps of {p:?}"));
             t.check(*pr == ap && sw::Projective::from(ap) == *pr, || format!("{name}: projective == affine of {p:?}"));
+            t.check(hash_of(pr) == hash_of(&sw_reps::<P>(*p)[0]), || format!("{name}: equal points hash differently (rep {ri} of {p:?})"));
             for q in &pts {
                 let aq = sw_aff::<P>(*q);
                 let e = sw_add(*p, *q, a);
@@ -101,6 +102,13 @@ fn sw_group<P: sw::SWCurveConfig>(t: &mut Tally, name: &str) where P::BaseField:
     }
 }
 
+fn hash_of<T: std::hash::Hash>(x: &T) -> u64 {
+    use std::hash::Hasher;
+    let mut h = std::collections::hash_map::DefaultHasher::new();
+    x.hash(&mut h);
+    h.finish()
+}
+
 // ------------------------------------------------------------------ twisted Edwards oracle
 fn te_add<F: Field>(p: (F, F), q: (F, F), a: F, d: F) -> (F, F) {
     let (x1, y1) = p; let (x2, y2) = q;
@@ -135,6 +143,7 @@ fn te_group<P: te::TECurveConfig>(t: &mut Tally, name: &str) where P::BaseField:
             t.check(te_to(&pr.double()) == te_add(*p, *p, a, d), || format!("{name}: double rep {ri} of {p:?}"));
             t.check(te_to(&-*pr) == (-p.0, p.1), || format!("{name}: neg rep {ri} of {p:?}"));
             t.check(pr.is_zero() == (*p == id) && *pr == te_reps::<P>(*p)[0], || format!("{name}: is_zero/eq reps of {p:?}"));
+            t.check(hash_of(pr) == hash_of(&te_reps::<P>(*p)[0]), || format!("{name}: equal points hash differently (rep {ri} of {p:?})"));
             for q in &pts {
                 let aq = te::Affine::<P>::new_unchecked(q.0, q.1);
                 let e = te_add(*p, *q, a, d);
@@ -188,6 +197,13 @@ fn scalar_paths<G: CurveGroup + ScalarMul>(t: &mut Tally, name: &str, pts: &[G],
                     let table = ctx.table(*p);
                     t.check(ctx.mul_with_table(&table, &s) == Some(e), || format!("{name}: wnaf table window {w} k={k}"));
                 }
+            }
+        }
+        // bit-stream multiplication: EVERY big-endian bit string of length <= 9 (empty, all-zero and leading zeros included)
+        for len in 0..10usize {
+            for bits in 0..(1u64 << len) {
+                let be: Vec<bool> = (0..len).rev().map(|i| (bits >> i) & 1 == 1).collect();
+                t.check(p.mul_bits_be(be.iter().cloned()) == oracle(bits as u128, p), || format!("{name}: mul_bits_be({be:?})"));
             }
         }
         // two-limb scalars: k + j * 2^64
